@@ -2,6 +2,8 @@ import XmppModel.Prelude.Hex
 import XmppModel.Prelude.Xml
 import XmppModel.Model.Encoder
 import XmppModel.Model.SendGuard
+import XmppModel.Model.ValueForms
+import XmppModel.Model.Transport
 /-! Driver for C05 (see harness/c05 for the line protocol).
 
     tx <entry> <ns> <from|-> <startTok|-> <toks>   -> <status> <canonical wire tokens>
@@ -125,7 +127,7 @@ def handle (args : List String) : Option String :=
     | "sendel" => do
       let (n, as) ← startOf start
       pure (outLine cfg "ok" (sendElementToks n as ts))
-    | "enc" => pure (outLine cfg "ok" ts)
+    | "enc" => pure (outLine cfg "ok" (ValueForms.handed (ValueForms.sourceOfForm _form) ts))
     | "tw" =>
       if _form.startsWith "f:" then do
         let pos ← mapM? (fun (x : String) => x.toNat?) (splitList (_form.drop 2).toString)
@@ -133,10 +135,10 @@ def handle (args : List String) : Option String :=
         let o := exec ⟨[], []⟩ (ops ++ [.flush])
         pure s!"ok {encToks (canon cfg.ns o.wire)}"
       else pure (outLine cfg "ok" ts)
-    | "reply" => pure (outLine cfg "ok" ts)
+    | "reply" => pure (outLine cfg "ok" (ValueForms.handed (ValueForms.sourceOfForm _form) ts))
     | "encel" | "replyel" => do
       let (n, as) ← startOf start
-      pure (outLine cfg "ok" (replaceOuter n as 0 ts))
+      pure (outLine cfg "ok" (replaceOuter n as 0 (ValueForms.handed (ValueForms.sourceOfForm _form) ts)))
     | "iq" => pure (stanzaLine cfg .iq ts)
     | "msg" => pure (stanzaLine cfg .message ts)
     | "pres" => pure (stanzaLine cfg .presence ts)
@@ -166,6 +168,16 @@ def handle (args : List String) : Option String :=
     match r.2 with
     | .wrote out => pure s!"{s1} ok {encToks (canon cfg.ns (r.1 ++ out))}"
     | .refused => pure s!"{s1} broken {encToks (canon cfg.ns r.1)}"
+  | ["wfault", _ns, _from, _entry, _start, _toks, _form, chunks, at_, n, kind, status, accepted, next] => do
+    -- relation: is the observation one a transport layer that hands every byte on exactly once
+    -- can show; the model of the code itself must be among those
+    let cs ← if chunks == "-" then some [] else mapM? (fun (x : String) => x.toNat?) (splitList chunks)
+    let at_ ← at_.toNat?
+    let n ← n.toNat?
+    let acc ← accepted.toNat?
+    let m := Transport.modelObs cs at_ n kind
+    if !Transport.admissibleObs cs at_ n kind m.1 m.2 (if m.1 == "ok" then "ok" else "err") then none
+    pure (if Transport.admissibleObs cs at_ n kind (if status == "ok" then "ok" else "err") acc (if next == "ok" then "ok" else "err") then "ok" else "bad")
   | ["flush", entry, form] => pure (showBool (flushesAtReturn entry form))
   | ["conc", n, order] => do
     let n ← n.toNat?
